@@ -8,7 +8,8 @@ Inductive fdesc := FD (D : dialect) (seqid source ftype : str) (s e : option Z) 
                       (keep_order sort_values : bool).
 
 Inductive case :=
-| COps (ops : list (str * pyval)) (reads : list read) (stored_kinds : list (str * stored))
+| COps (ops : list (bool * (str * pyval)))        (* true: set through setdefault; false: through []=, update(), the constructor *)
+       (reads : list read) (stored_kinds : list (str * stored))
 | CJson (a : attrs) (impl : result attrs)
 | CMergeA (numeric : bool) (a1 a2 : attrs) (impl : result attrs) (args_unchanged : bool)
 | CEq (f g : fdesc) (eq streq hasheq : bool).
@@ -43,7 +44,8 @@ Definition union_ok (a1 a2 m : attrs) : bool :=
 Definition verdict (c : case) : Z :=
   match c with
   | COps ops reads kinds =>
-      let d := fold_left (fun d kv => setitem d (fst kv) (snd kv)) ops [] in
+      let d := fold_left (fun (d : cdict) (op : bool * (str * pyval)) => let kv := snd op in
+                                      if fst op then setdefault d (fst kv) (snd kv) else setitem d (fst kv) (snd kv)) ops [] in
       if forallb (fun r => match r with Rd k w wo =>
                     result_eqb pyval_eqb (getitem true d k) w && result_eqb pyval_eqb (getitem false d k) wo end) reads
          && list_eqb (pair_eqb str_eqb stored_eqb) d kinds then V_OK else V_BAD
